@@ -321,11 +321,21 @@ func (am *AccountingManager) StopSession(sessionID string, terminateCause uint32
 	am.persistActiveSession(session)
 
 	// Send Accounting-Stop
+	stopDurable := true
 	if err := am.sendAccountingStop(session, terminateCause); err != nil {
 		am.logger.Warn("Failed to send Accounting-Stop immediately, queued for retry",
 			zap.String("session_id", sessionID),
 			zap.Error(err),
 		)
+		// The Stop now lives in the in-memory retry queue only: write the queue
+		// to disk before the session file (the other durable trace) is removed
+		if perr := am.persistPendingRecords(); perr != nil {
+			stopDurable = false
+			am.logger.Warn("Failed to persist queued Accounting-Stop, keeping session file",
+				zap.String("session_id", sessionID),
+				zap.Error(perr),
+			)
+		}
 	}
 
 	// Remove from active sessions
@@ -334,7 +344,9 @@ func (am *AccountingManager) StopSession(sessionID string, terminateCause uint32
 	am.sessionsMu.Unlock()
 
 	// Remove persisted session
-	am.removePersistedSession(sessionID)
+	if stopDurable {
+		am.removePersistedSession(sessionID)
+	}
 
 	return nil
 }
@@ -605,6 +617,7 @@ func (am *AccountingManager) processPendingRecord(record *PendingAcctRecord) {
 		case AcctStatusInterimUpdate:
 			atomic.AddUint64(&am.interimTotal, 1)
 		}
+		am.syncPendingFile()
 		return
 	}
 
@@ -627,6 +640,7 @@ func (am *AccountingManager) processPendingRecord(record *PendingAcctRecord) {
 			zap.Uint32("status_type", uint32(record.Request.StatusType)),
 			zap.Int("retries", record.RetryCount),
 		)
+		am.syncPendingFile()
 		return
 	}
 
@@ -773,29 +787,53 @@ func (am *AccountingManager) removePersistedSession(sessionID string) {
 	verifCrashPoint("remove-session.after", sessionID)
 }
 
-// persistPendingRecords persists pending records to disk
+// persistPendingRecords makes pending.json reflect the in-memory retry queue
+// (an empty queue removes the file).  Writers are serialised by pendingMu and
+// the file is replaced atomically.
 func (am *AccountingManager) persistPendingRecords() error {
-	am.pendingMu.RLock()
-	defer am.pendingMu.RUnlock()
+	am.pendingMu.Lock()
+	defer am.pendingMu.Unlock()
+
+	path := filepath.Join(am.persistPath, "pending.json")
 
 	if len(am.pendingRecords) == 0 {
+		verifCrashPoint("persist-pending.before", "")
+		if err := os.Remove(path); err != nil && !os.IsNotExist(err) {
+			return fmt.Errorf("remove pending records: %w", err)
+		}
+		verifCrashPoint("persist-pending.after", "")
 		return nil
 	}
 
-	path := filepath.Join(am.persistPath, "pending.json")
 	data, err := json.Marshal(am.pendingRecords)
 	if err != nil {
 		return fmt.Errorf("marshal pending records: %w", err)
 	}
 
 	verifCrashPoint("persist-pending.before", "")
-	if err := os.WriteFile(path, data, 0600); err != nil {
+	tmp := path + ".tmp"
+	if err := os.WriteFile(tmp, data, 0600); err != nil {
 		return fmt.Errorf("write pending records: %w", err)
+	}
+	if err := os.Rename(tmp, path); err != nil {
+		return fmt.Errorf("replace pending records: %w", err)
 	}
 	verifCrashPoint("persist-pending.after", "")
 
 	am.logger.Info("Persisted pending accounting records", zap.Int("count", len(am.pendingRecords)))
 	return nil
+}
+
+// syncPendingFile rewrites pending.json after the retry queue changed, if a
+// persisted copy exists (so that a delivered record is not sent again by the
+// next start, and an emptied queue leaves no stale file behind)
+func (am *AccountingManager) syncPendingFile() {
+	if _, err := os.Stat(filepath.Join(am.persistPath, "pending.json")); err != nil {
+		return
+	}
+	if err := am.persistPendingRecords(); err != nil {
+		am.logger.Warn("Failed to update persisted pending records", zap.Error(err))
+	}
 }
 
 // recoverOrphanedSessions recovers orphaned sessions from disk
